@@ -232,19 +232,37 @@ def run_lines(binary, stream, lines, args=(), timeout=1800, cwd=None):
     return p.returncode, out, p.stderr
 
 
+def run_resilient(binary, stream, lines, args=(), timeout=1800, cwd=None):
+    """Like run_lines, for binaries that flush one line per case and may die on a case (crash, watchdog exit):
+    the case at which the process stopped gets the line CRASH/TIMEOUT and the run resumes after it."""
+    out, err, i = [], "", 0
+    while i < len(lines):
+        rc, o, e = run_lines(binary, stream, lines[i:], args, timeout, cwd)
+        out += o
+        i += len(o)
+        if i < len(lines):
+            if not (o and o[-1] == "TIMEOUT"):
+                tail = " ".join(e.strip().split("\n")[:2])[:200]
+                out.append("CRASH " + tail)
+                i += 1
+            err += e[-500:]
+    return 0, out, err
+
+
 def chunks(l, n):
     k = max(1, (len(l) + n - 1) // n)
     return [l[i:i + k] for i in range(0, len(l), k)]
 
 
-def run_parallel(binary, stream, lines, args=(), jobs=8, timeout=1800, cwd=None):
+def run_parallel(binary, stream, lines, args=(), jobs=8, timeout=1800, cwd=None, resilient=False):
     """Run a line-oriented binary over the cases in parallel shards, preserving order."""
     import concurrent.futures as cf
+    runner = run_resilient if resilient else run_lines
     if len(lines) < 2000 or jobs <= 1:
-        return run_lines(binary, stream, lines, args, timeout, cwd)
+        return runner(binary, stream, lines, args, timeout, cwd)
     parts = chunks(lines, jobs)
     with cf.ThreadPoolExecutor(max_workers=jobs) as ex:
-        res = list(ex.map(lambda p: run_lines(binary, stream, p, args, timeout, cwd), parts))
+        res = list(ex.map(lambda p: runner(binary, stream, p, args, timeout, cwd), parts))
     rc = max(r[0] for r in res)
     out = [l for r in res for l in r[1]]
     err = "".join(r[2] for r in res)
